@@ -275,31 +275,42 @@ def numberRes (inp : Bytes) (s : Nat) : TokRes :=
       | some b => .tok (.dbl b) n n
       | none => .lexErr n n
 
+/-- a string literal opened by the quote `c`. -/
+def literalRes (c : UInt8) (r : Bytes) : TokRes :=
+  match litScan c r with
+  | .closed n =>
+    match (if c = 39 then unquoteSingle (c :: r.take n) else unquoteDouble (c :: r.take n)) with
+    | some s => .tok (.lit s) (n + 1) 0
+    | none => .lexErr (n + 1) 0
+  | .newline => .bad
+  | .open_ => .silent
+
+/-- `+` or `-`: a number if a digit follows. -/
+def signRes (c : UInt8) (r : Bytes) : TokRes :=
+  match r with
+  | [] => .silent
+  | d :: _ => if isDigit d then numberRes (c :: r) 1 else .bad
+
+/-- keyword (with the blanks it absorbs), reserved word (likewise), or identifier: decided by
+the longest identifier match. -/
+def wordRes (c : UInt8) (r : Bytes) : TokRes :=
+  match keywordOf ((c :: r).take (1 + identTail r)) with
+  | some k =>
+    .tok (.kw k) (1 + identTail r + blankLen (r.drop (identTail r)))
+      (1 + identTail r + blankLen (r.drop (identTail r)))
+  | none =>
+    if isReserved ((c :: r).take (1 + identTail r)) then
+      .lexErr (1 + identTail r + blankLen (r.drop (identTail r)))
+        (1 + identTail r + blankLen (r.drop (identTail r)))
+    else .tok (.ident ((c :: r).take (1 + identTail r))) (1 + identTail r) (1 + identTail r)
+
 /-- The scanner at byte `c` followed by `r` (`c` is not blank, `#`, or `/`). -/
 def tokenRes (c : UInt8) (r : Bytes) : TokRes :=
   if isSymbol c then .tok (.sym c) 1 1
-  else if c = 34 || c = 39 then
-    match litScan c r with
-    | .closed n =>
-      let text := c :: r.take n
-      match (if c = 39 then unquoteSingle text else unquoteDouble text) with
-      | some s => .tok (.lit s) (n + 1) 0
-      | none => .lexErr (n + 1) 0
-    | .newline => .bad
-    | .open_ => .silent
-  else if c = 43 || c = 45 then
-    match r with
-    | [] => .silent
-    | d :: _ => if isDigit d then numberRes (c :: r) 1 else .bad
+  else if c = 34 || c = 39 then literalRes c r
+  else if c = 43 || c = 45 then signRes c r
   else if isDigit c then numberRes (c :: r) 0
-  else if isAlpha_ c then
-    let i := 1 + identTail r
-    let w := (c :: r).take i
-    match keywordOf w with
-    | some k => let n := i + blankLen (r.drop (i - 1)); .tok (.kw k) n n
-    | none =>
-      if isReserved w then let n := i + blankLen (r.drop (i - 1)); .lexErr n n
-      else .tok (.ident w) i i
+  else if isAlpha_ c then wordRes c r
   else .bad
 
 /-! ### State and bookkeeping -/
